@@ -19,6 +19,22 @@ from sim.kernel import Engine, StopRun
 
 A58 = RB58.ALPHABET
 NON58 = '0OIl +/-_é'
+
+
+def confusables(c):
+    """Non-ASCII characters that careless normalisation could fold onto the ASCII character c."""
+    out = [chr(0x100 + ord(c)), chr(0xff00 + ord(c) - 0x20), chr(0x10000 + ord(c)), chr(0x2100 + (ord(c) & 0xff))]
+    if c in 'kK':
+        out.append('\u212a')          # KELVIN SIGN: lower() is 'k'
+    if c in 'sS':
+        out.append('\u017f')          # LONG S: upper() is 'S'
+    if c in 'iI':
+        out += ['\u0131', '\u0130']   # dotless i / dotted capital I
+    lookalike = {'a': '\u0430', 'e': '\u0435', 'o': '\u043e', 'p': '\u0440', 'c': '\u0441', 'x': '\u0445', 'y': '\u0443', 'A': '\u0410', 'B': '\u0412',
+                 'E': '\u0415', 'K': '\u041a', 'M': '\u041c', 'H': '\u041d', 'P': '\u0420', 'C': '\u0421', 'T': '\u0422', 'X': '\u0425'}
+    if c in lookalike:
+        out.append(lookalike[c])
+    return out
 CS = RB32.CHARSET
 
 
@@ -187,6 +203,11 @@ class Chan(Engine):
                 self._b58_decode_check(text[:p] + c + text[p + 1:], 'after substituting a non-alphabet character at %d' % p, fault='sub-bad')
             self._b58_decode_check(text[:p] + text[p + 1:], 'after deleting character %d' % p, fault='del')
             cnt += 4
+            for c in confusables(text[p]):
+                self._b58_decode_check(text[:p] + c + text[p + 1:], 'after substituting character %d by the non-ASCII look-alike U+%04X' % (p, ord(c)), fault='sub-unicode')
+        ctx.fault('text.unicode-confusable', n * 4)
+        for p in range(0, 1):
+            pass
         ctx.fault('text.substitution', n * 57)
         ctx.fault('text.deletion', n)
         for p in range(n + 1):
@@ -382,6 +403,12 @@ class Chan(Engine):
                 if c != text[p]:
                     self._b32_judge(hrp, text[:p] + c + text[p + 1:], 'with character %d replaced by %r' % (p, c), orig, False, fault='sub-nonchar')
         ctx.fault('substitution.non-charset', n * 7)
+        for rendering, rname in ((text, 'lower'), (text.upper(), 'upper')):
+            for p in range(n):
+                for c in confusables(rendering[p]):
+                    self._b32_judge(hrp, rendering[:p] + c + rendering[p + 1:], 'in %s case with character %d replaced by the non-ASCII look-alike U+%04X' % (rname, p, ord(c)),
+                                    orig, False, fault='sub-unicode')
+        ctx.fault('substitution.unicode-confusable', n * 8)
         # --- double substitutions: exhaustive or seeded
         if a['doubles'] == 'all':
             cnt = 0
